@@ -375,6 +375,48 @@ def mapRes {α β : Type} (f : α → β) : Res α → Res β
   | .ok v => .ok (f v)
   | .err e => .err e
 
+/-! ## parameter names as written in the source and as seen by callers
+
+`Sig` carries the names callers must use.  They are a function of the source spelling and of the
+definition context: the identifier is NFKC-normalised and, inside a class body (directly or nested in a
+method), a class-private spelling `__x` becomes `_Cls__x` (CPython `_Py_Mangle`; Cython: `arg.entry.name`,
+which `generate_tuple_and_keyword_parsing_code` interns into `__pyx_pyargnames`). -/
+
+inductive NameShape where
+  | plain      -- ordinary, single underscore, dunder `__x__`, already-mangled-looking `_Cls__x`
+  | priv       -- class-private `__x`
+  deriving DecidableEq, Repr
+
+/-- source spelling: the NFKC-normalised identifier text `norm` (a code) and whether it is class-private -/
+structure SrcName where
+  norm  : Nat
+  shape : NameShape
+  deriving DecidableEq, Repr
+
+/-- the name callers see; `cls = some c` inside the body of class `c`.  Names are coded injectively:
+    an unmangled text `t` as `2*t`, the mangled `_c__t` as `2*(c + t*(…)) + 1` via Cantor pairing. -/
+def callerName (cls : Option Nat) (n : SrcName) : Nat :=
+  match cls, n.shape with
+  | some c, .priv => 2 * ((c + n.norm) * (c + n.norm + 1) / 2 + n.norm) + 1
+  | _, _ => 2 * n.norm
+
+structure SrcParam where
+  src  : SrcName
+  dflt : Option Val
+
+structure SrcSig where
+  cls   : Option Nat
+  pos   : List SrcParam
+  npo   : Nat
+  kwo   : List SrcParam
+  star  : Bool
+  sstar : Bool
+
+/-- the signature both CPython and the compiled function expose -/
+def SrcSig.toSig (s : SrcSig) : Sig :=
+  { pos := s.pos.map (fun p => ⟨callerName s.cls p.src, p.dflt⟩), npo := s.npo,
+    kwo := s.kwo.map (fun p => ⟨callerName s.cls p.src, p.dflt⟩), star := s.star, sstar := s.sstar }
+
 /-! ## line protocol -/
 
 def mkSig (P npo ndef : Nat) (star sstar : Bool) (kwo : String) : Sig :=
